@@ -1,7 +1,9 @@
 #!/bin/bash
 # Usage: tools/seed_regress.sh [seed-dir-name ...]  — re-runs every kept seeded change against the checks its meta.json
 # names in caught_by and prints CAUGHT / MISSED per (seed, check).  Applies each patch to /repo and undoes it.
-cd /verif
+cd "$(dirname "$0")/.."
+V=$(pwd)
+R=${VERIF_REPO:-/repo}
 SEEDS="$@"
 [ -z "$SEEDS" ] && SEEDS=$(ls seeded)
 for s in $SEEDS; do
@@ -14,7 +16,7 @@ for c in m.get('caught_by',[]):
     if x and x.group(1) not in ids: ids.append(x.group(1))
 print(' '.join(ids))")
   for c in $checks; do
-    out=$(tools/seed_run.sh /verif/seeded/$s $c 2>&1)
+    out=$(tools/seed_run.sh $V/seeded/$s $c 2>&1)
     if echo "$out" | grep -q "^VIOLATION property=$c"; then echo "CAUGHT $s $c"; else echo "MISSED $s $c :: $(echo "$out" | grep -vE 'KNOWN-FINDING' | tail -2 | tr '\n' ' ' | cut -c1-160)"; fi
   done
 done
